@@ -74,23 +74,7 @@ def build_native():
 
 
 def quiescent(pid):
-    """True if every thread of pid sleeps and consumes no CPU over 5 seconds."""
-    def snap():
-        out = {}
-        try:
-            for t in os.listdir("/proc/%d/task" % pid):
-                with open("/proc/%d/task/%s/stat" % (pid, t)) as f:
-                    parts = f.read().rsplit(")", 1)[1].split()
-                out[t] = (parts[0], int(parts[11]) + int(parts[12]))
-        except OSError:
-            return None
-        return out
-    a = snap()
-    time.sleep(5)
-    b = snap()
-    if not a or not b or set(a) != set(b):
-        return False
-    return all(b[t][0] == "S" and a[t][1] == b[t][1] for t in b)
+    return common.process_quiescent(pid)
 
 
 def native_stress(chk, binary, rounds):
